@@ -25,7 +25,7 @@
   the id afterwards.
 
   The calls of the heartbeat, of USE / PREPARE / REGISTER and of user requests share the stream-id space and the
-  c.calls map. `Cfg` selects the code that exists (`Cfg.code`) or one of two variants that the theorems exclude and
+  c.calls map. `Cfg` selects the code that exists (`Cfg.code`) or one of three variants that the theorems exclude and
   the counterexamples exhibit (registration after the write; heartBeat treating an ERROR answer as fatal and
   closing the connection WITH THAT FRAME as the error value; releaseStream removing the c.calls entry of its id AFTER
   it has freed the id and run the observer callback).
